@@ -440,8 +440,8 @@ def _replay_block_update(rec, args, res, drv, k, tags):
     fixes = {f for _, f in args}
     if len(fixes) == 1:
         newfix = fixes.pop()
-        vals = [U.oparam_wire(v, newfix) for v in U.block_raw_values(cov, size, sd, corr)]
-        m = drv.ask(["bupdate", U.brec_wire(rec.root), vals, bool(newfix)])
+        ws, news, olds = U.block_update_args(rec, cov, size, sd, corr, newfix)
+        m = drv.ask(["bupdate", U.brec_wire(rec.root), ws, news, olds, bool(newfix)])
         want = ["ok", U.norm(U.brec_wire(res.root))]
         tags.append("k:api-omega-block-tokens")
         if m != want:
